@@ -21,3 +21,71 @@ def c08_zero_pktsize(rp):
 
 def c12_sparse_trailing_hole(rp):
     return rp.get('class') == 'sparse_trailing_hole'
+
+
+# ---- C18: each predicate needs the class the harness attributed (after checking that this way of reading the
+# file accounts completely for the difference) AND the distinguishing feature of the input itself
+
+def _c18_text(rp):
+    return '\n'.join((rp.get('files') or {}).values())
+
+
+def c18_glob_order(rp):                     # fixed d9a79c3
+    return rp.get('kind') in ('include_inline', 'ssh_G') and rp.get('class') == 'glob_order'
+
+
+def c18_expansion_per_file(rp):             # fixed d97dd8e
+    return rp.get('kind') in ('include_inline', 'multipath') and rp.get('class') == 'expansion_per_file'
+
+
+def c18_glob_sort_componentwise(rp):
+    import re
+    return (rp.get('kind') == 'include_inline' and rp.get('class') == 'glob_sort_componentwise'
+            and re.search(r'(?im)^\s*include\b.*[*?][^/\n]*/', _c18_text(rp)) is not None)
+
+
+def c18_list_aliasing(rp):
+    return (rp.get('kind') == 'purity' and rp.get('class') == 'list_aliasing' and bool(rp.get('changed'))
+            and set(rp['changed']) <= {'SendEnv', 'IdentityFile', 'CertificateFile', 'HostKey', 'HostCertificate'})
+
+
+def c18_inherited_reexpansion(rp):
+    return (rp.get('kind') == 'inherited' and rp.get('class') == 'inherited_reexpansion' and '%%' in rp.get('parent', '')
+            and set(rp.get('changed', ['x'])) <= {'IdentityFile', 'CertificateFile', 'IdentityAgent'})
+
+
+def c18_final_pass_restart(rp):
+    import re
+    return (rp.get('kind') == 'ssh_G' and rp.get('class') == 'final_pass_restart'
+            and re.search(r'(?im)^\s*match\b.*\bfinal\b', _c18_text(rp)) is not None)
+
+
+def c18_canonical_in_final_pass(rp):
+    import re
+    t = _c18_text(rp)
+    return (rp.get('kind') == 'ssh_G' and rp.get('class') == 'canonical_final'
+            and re.search(r'(?im)^\s*match\b.*\bfinal\b', t) is not None
+            and re.search(r'(?im)^\s*match\b.*\bcanonical\b', t) is not None)
+
+
+def c18_host_comma(rp):
+    import re
+    return (rp.get('kind') == 'ssh_G' and rp.get('class') == 'host_comma'
+            and re.search(r'(?im)^\s*host[ \t=]+.*\S,\S', _c18_text(rp)) is not None)
+
+
+def c18_unquoted_backslash(rp):
+    return rp.get('kind') == 'ssh_G' and rp.get('class') == 'backslash' and '\\' in _c18_text(rp)
+
+
+def c18_token_value_env_expanded(rp):
+    return (rp.get('kind') == 'expansion' and rp.get('class') == 'two_pass_env_in_token_value'
+            and '${' in rp.get('user', '') and '%r' in rp.get('template', ''))
+
+
+def c16_sshsig_host_cert(rp):               # fixed 0617eca
+    return rp.get('kind') == 'sshsig' and rp.get('signer') == 'host' and rp.get('expect') == 'reject'
+
+
+def c16_extension_data_not_consumed(rp):    # fixed d13f6e7
+    return rp.get('kind') == 'cert_extensions'
